@@ -168,7 +168,11 @@ func predTime(tag byte) func([]byte) predResult {
 			v, z, why = der.CheckGeneralizedTime(t.Content)
 		}
 		if z == der.Reject {
-			return rej(why)
+			p := rej(why)
+			if v.Valid { // not DER, but the instant is unambiguous: if the reader accepts anyway the value is still checked
+				p.val, p.total = fmt.Sprint(v.Unix), t.Total
+			}
+			return p
 		}
 		return predResult{z, why, fmt.Sprint(v.Unix), t.Total}
 	}
@@ -500,16 +504,22 @@ func TestC23(t *testing.T) {
 	m := mon.New(t, "C23")
 	defer m.Done()
 	m.Rule("case = one byte string built as (kind, mutation): kind in {" + strings.Join(kindNames, ",") + "}, mutation in {" + strings.Join(mutNames, ",") + "}; kind and mutation rotate with the case index (every pair occurs for every seed), values inside are PRNG-drawn with type boundaries (every Go integer type's min/max±2, 2^(8k-1) encoding boundaries, OID arcs at base-128 boundaries and 2^31, times at 1950/2049/2050, leap days). " +
-		"Every reader of the package runs on every input. Oracle = X.690 DER predicate (h/ref/der) giving accept/reject/either + value + consumed length; encoding/asn1 only as 'both accept => same value'. Second stream: AddASN1* output equals the reference DER encoder and asn1.Marshal and is read back. distinct key = (kind, mutation, reader, predicate zone/reason)")
+		"Every reader of the package runs on every input. Oracle = X.690 DER predicate (h/ref/der) giving accept/reject/either + class + value + consumed length; BER-but-not-DER time forms (UTCTime without seconds, numeric differential instead of Z) and DER fractional seconds are judged under class keys of their own and are produced for every seed by an index-driven variant rotation; encoding/asn1 only as 'both accept => same value'. Second stream: AddASN1* output equals the reference DER encoder and asn1.Marshal and is read back. distinct key = (kind, mutation, reader, predicate zone/reason)")
 	m.Assume("h/ref/der is validated by X.690/layman's-guide vectors and a cross-check against encoding/asn1 in its own unit test")
-	m.Assume("zone 'either' (never judged): GeneralizedTime/UTCTime forms that are BER but not DER (no seconds, numeric differential, fraction, local time), ISO 8601 corner cases (24:00:00, second 60, year 0000), OID subidentifiers >= 2^31 — cryptobyte documents 'decodes an ASN.1 UTCTime/GENERALIZEDTIME' with a fixed layout and limits arcs to 31 bits on purpose")
+	m.Assume("zone 'either' (never judged): OID subidentifiers >= 2^31 (not representable in asn1.ObjectIdentifier with a 32-bit int; cryptobyte limits arcs on purpose) and ISO 8601 corner cases of time strings (24:00:00, second 60, year 0000)")
 	readers := buildReaders()
 	nK := len(kindNames)
 	total := m.N(60000, 3000000)
 	m.Cases("inputs", total, func(i int64, r *rand.Rand) {
 		kind := int(i % int64(nK))
-		mut := mutRotation[int((i/int64(nK))%int64(len(mutRotation)))]
-		in := buildInput(r, kind, mut, m.Thorough())
+		rot := i / int64(nK)
+		slot := int(rot % int64(len(mutRotation)))
+		mut := mutRotation[slot]
+		occ := -1 // running number of this kind's type-specific cases: drives the variant rotation
+		if mut == 13 {
+			occ = int(rot/int64(len(mutRotation)))*typeSpecificPerRound + typeSpecificRank[slot]
+		}
+		in := buildInput(r, kind, mut, occ, m.Thorough())
 		m.Count("kind:"+kindNames[kind], 1)
 		m.Count("mutation:"+mutNames[mut], 1)
 		if i < 40 && i%7 == 0 {
@@ -541,8 +551,13 @@ func TestC23(t *testing.T) {
 			switch p.zone {
 			case der.Accept:
 				m.Count("accept:"+rd.name, 1)
+				class := ""
+				if p.reason != "" { // a DER form with a class of its own (fractional seconds)
+					class = ":" + p.reason
+					m.Count("accept-class:"+p.reason, 1)
+				}
 				if !ok {
-					m.Violation("rejects-der:"+rd.name, wit())
+					m.Violation("rejects-der:"+rd.name+class, wit())
 				} else {
 					if val != p.val {
 						m.Violation("wrong-value:"+rd.name, wit())
@@ -558,6 +573,9 @@ func TestC23(t *testing.T) {
 				m.Count("reject-class:"+p.reason, 1)
 				if ok {
 					m.Violation("accepts-non-der:"+rd.name+":"+p.reason, wit())
+					if p.val != "" && val != p.val {
+						m.Violation("wrong-value:"+rd.name+":"+p.reason, wit())
+					}
 				}
 			default:
 				if ok {
@@ -615,12 +633,28 @@ func TestC23(t *testing.T) {
 		"utctime-syntax", "utctime-field-range", "generalizedtime-syntax", "generalizedtime-field-range", "trailing-data-inside-explicit-tag", "tag-mismatch"} {
 		m.Gate("reject-class:"+c, 40, "near-valid class observed")
 	}
+	for _, c := range []string{"no-seconds", "offset-instead-of-Z", "no-seconds+offset-instead-of-Z", "generalizedtime-reduced-precision", "generalizedtime-fraction-not-der", "generalizedtime-local"} {
+		m.Gate("reject-class:"+c, 8, "BER-but-not-DER time form observed")
+	}
+	m.Gate("accept-class:fractional-seconds", 5, "DER GeneralizedTime with fractional seconds")
+	m.Gate("builder_time_non_utc:AddASN1GeneralizedTime", 200, "GeneralizedTime built from a time in a non-UTC zone")
+	m.Gate("builder_time_non_utc:AddASN1UTCTime", 100, "UTCTime built from a time in a non-UTC zone")
 	m.Gate("builder_outputs_checked", m.N(20000, 1000000), "AddASN1* outputs compared with the reference encoder")
 	m.Gate("std-both-accept:ReadASN1Integer(*int64)", 100, "differential comparisons with encoding/asn1")
 }
 
 // mutRotation: every mutation once, "valid" three times, "type-specific" five times.
 var mutRotation = []int{0, 1, 2, 3, 13, 4, 5, 6, 0, 7, 8, 13, 9, 10, 11, 13, 12, 0, 14, 13, 15, 16, 17, 13, 18}
+
+var typeSpecificRank, typeSpecificPerRound = func() (map[int]int, int) {
+	rk := map[int]int{}
+	for s, mu := range mutRotation {
+		if mu == 13 {
+			rk[s] = len(rk)
+		}
+	}
+	return rk, len(rk)
+}()
 
 func trunc(b []byte) []byte {
 	if len(b) > 600 {
@@ -655,7 +689,8 @@ func checkBuilders(m *mon.M, i int64, r *rand.Rand) {
 		wantErr bool
 		std     any  // value for asn1.Marshal (nil: none)
 		stdPar  string
-		eitherT bool // time in a non-UTC zone: output form not judged
+		alt     []byte // time in a non-UTC zone: the non-DER encoding with a numeric differential
+		skip    bool   // time in a non-UTC zone whose UTC year leaves the representable range: not judged
 	}
 	var cs []bcase
 	v := randInt(r)
@@ -707,20 +742,42 @@ func checkBuilders(m *mon.M, i int64, r *rand.Rand) {
 		cs = append(cs, bcase{name: "AddASN1ObjectIdentifier(invalid)", build: func(b *cryptobyte.Builder) { b.AddASN1ObjectIdentifier(bad) }, wantErr: true})
 	}
 	// times
-	c := randCivil(r, false)
+	nonUTC := i%4 == 0 // by construction, whatever the seed
+	c := randCivil(r, nonUTC && i%8 == 0)
 	loc := time.UTC
-	nonUTC := r.IntN(4) == 0
+	offSec := 0
 	if nonUTC {
-		loc = time.FixedZone("", []int{3600, -3600, 19800, -12 * 3600, 14 * 3600, 60}[r.IntN(6)])
+		offSec = []int{3600, -3600, 19800, -12 * 3600, 14 * 3600, 60}[r.IntN(6)]
+		loc = time.FixedZone("", offSec)
 	}
 	tm := time.Date(c.y, time.Month(c.mo), c.d, c.h, c.mi, c.s, 0, loc)
 	if r.IntN(3) == 0 {
 		tm = tm.Add(time.Duration(r.IntN(1e9))) // sub-second part must be dropped
 	}
-	gwant := der.EncodeTLV(tagGenT, []byte(c.gen()))
-	cs = append(cs, bcase{name: "AddASN1GeneralizedTime", build: func(b *cryptobyte.Builder) { b.AddASN1GeneralizedTime(tm) }, want: gwant, std: tm, stdPar: "generalized", eitherT: nonUTC})
+	// DER: the instant in UTC with Z. For a non-UTC zone the civil fields are shifted by the offset (time package
+	// arithmetic, trusted); the differential form is the known non-DER alternative.
+	u := tm.UTC()
+	cu := civil{u.Year(), int(u.Month()), u.Day(), u.Hour(), u.Minute(), u.Second()}
+	diff := ""
+	if nonUTC {
+		a := offSec
+		sign := "+"
+		if a < 0 {
+			a, sign = -a, "-"
+		}
+		diff = fmt.Sprintf("%s%02d%02d", sign, a/3600, a%3600/60)
+	}
+	var galt, ualt []byte
+	if nonUTC {
+		g, ut := c.gen(), c.utc()
+		galt = der.EncodeTLV(tagGenT, []byte(g[:len(g)-1]+diff))
+		ualt = der.EncodeTLV(tagUTC, []byte(ut[:len(ut)-1]+diff))
+	}
+	cs = append(cs, bcase{name: "AddASN1GeneralizedTime", build: func(b *cryptobyte.Builder) { b.AddASN1GeneralizedTime(tm) }, want: der.EncodeTLV(tagGenT, []byte(cu.gen())), std: tm, stdPar: "generalized",
+		alt: galt, skip: cu.y < 1 || cu.y > 9999})
 	if c.y >= 1950 && c.y < 2050 {
-		cs = append(cs, bcase{name: "AddASN1UTCTime", build: func(b *cryptobyte.Builder) { b.AddASN1UTCTime(tm) }, want: der.EncodeTLV(tagUTC, []byte(c.utc())), std: tm, stdPar: "utc", eitherT: nonUTC})
+		cs = append(cs, bcase{name: "AddASN1UTCTime", build: func(b *cryptobyte.Builder) { b.AddASN1UTCTime(tm) }, want: der.EncodeTLV(tagUTC, []byte(cu.utc())), std: tm, stdPar: "utc",
+			alt: ualt, skip: cu.y < 1950 || cu.y > 2049})
 	} else if !nonUTC {
 		cs = append(cs, bcase{name: "AddASN1UTCTime(out-of-range)", build: func(b *cryptobyte.Builder) { b.AddASN1UTCTime(tm) }, wantErr: true})
 	}
@@ -771,12 +828,21 @@ func checkBuilders(m *mon.M, i int64, r *rand.Rand) {
 		if nested {
 			want = der.EncodeTLV(tagSeq, append([]byte{tagNull, 0}, want...))
 		}
-		if bcs.eitherT {
-			m.Count("builder_time_non_utc_zone(form not judged)", 1)
-			if err == nil && !bytes.Equal(out, want) {
-				m.Count("builder_time_non_utc_emitted_differential", 1)
-			}
+		if bcs.skip {
+			m.Count("builder_time_utc_year_out_of_range(not judged)", 1)
 			continue
+		}
+		if bcs.alt != nil {
+			m.Count("builder_time_non_utc:"+bcs.name, 1)
+			alt := bcs.alt
+			if nested {
+				alt = der.EncodeTLV(tagSeq, append([]byte{tagNull, 0}, alt...))
+			}
+			if err == nil && bytes.Equal(out, alt) {
+				wit["want"] = mon.Hex(want)
+				m.Violation("emits-non-der:"+bcs.name+":non-utc-offset", full())
+				continue
+			}
 		}
 		if err != nil {
 			m.Violation("builder-error-on-representable:"+bcs.name, full())
